@@ -69,6 +69,23 @@ type StepResult struct {
 	Outcome    string // coarse oracle outcome label (vacuity guard)
 	Internal   string // non-empty: internal error (never a violation)
 	PrefixKey  string // key of the state before the last event (replay-divergence check)
+	PrefixDiff string
+	KeyText    string // full key (only with VERIF_DEBUG_KEYS=1)
+}
+
+// Compact replaces the (large) canonical keys by their hashes; used before a
+// result crosses a process boundary.
+func (r *StepResult) Compact() {
+	if r.Key != "" {
+		r.Key = hashKey(r.Key)
+	}
+	if r.PrefixKey != "" {
+		r.PrefixKey = hashKey(r.PrefixKey)
+	}
+	if os.Getenv("VERIF_DEBUG_KEYS") == "" {
+		r.PrefixDiff = ""
+		r.KeyText = ""
+	}
 }
 
 // Runner executes a history from the initial state and reports on the final state.
@@ -83,27 +100,31 @@ type Bounds struct {
 }
 
 type Report struct {
-	Scenario    string         `json:"scenario"`
-	States      int            `json:"states"`
-	Transitions int            `json:"transitions"`
-	Executions  int            `json:"executions"`
-	MaxDepth    int            `json:"max_depth"`
-	PerDepth    []int          `json:"frontier_per_depth"`
-	Outcomes    map[string]int `json:"outcomes"`
-	Violations  []Violation    `json:"violations"`
-	Exhaustive  bool           `json:"exhaustive"`
-	CapHit      string         `json:"cap_hit,omitempty"`
-	Samples     [][]string     `json:"samples"`
-	Internal    []string       `json:"internal_errors,omitempty"`
-	WallS       float64        `json:"wall_s"`
-	Bounds      Bounds         `json:"bounds"`
-	CrashRuns   int            `json:"crash_runs"`
+	Scenario         string         `json:"scenario"`
+	States           int            `json:"states"`
+	Transitions      int            `json:"transitions"`
+	Executions       int            `json:"executions"`
+	MaxDepth         int            `json:"max_depth"`
+	PerDepth         []int          `json:"frontier_per_depth"`
+	Outcomes         map[string]int `json:"outcomes"`
+	Violations       []Violation    `json:"violations"`
+	Exhaustive       bool           `json:"exhaustive"`
+	CapHit           string         `json:"cap_hit,omitempty"`
+	Samples          [][]string     `json:"samples"`
+	Internal         []string       `json:"internal_errors,omitempty"`
+	WallS            float64        `json:"wall_s"`
+	Bounds           Bounds         `json:"bounds"`
+	CrashRuns        int            `json:"crash_runs"`
+	CompletedDepth   int            `json:"completed_depth"`
+	Nondeterministic int            `json:"nondeterministic_replays"`
+	NondetSamples    []string       `json:"nondeterministic_samples,omitempty"`
 }
 
 type item struct {
 	hist    []Event
 	enabled []Event
 	key     string
+	keyText string
 	dev     int
 }
 
@@ -120,8 +141,24 @@ func hashKey(s string) string {
 	return hex.EncodeToString(h[:12])
 }
 
-// BFS explores breadth-first by replay with state deduplication.
-func BFS(name string, run Runner, b Bounds) *Report {
+// BatchRunner executes several histories (possibly in parallel worker
+// processes) and returns their results in order.
+type BatchRunner func(histories [][]Event) []StepResult
+
+func Sequential(run Runner) BatchRunner {
+	return func(hs [][]Event) []StepResult {
+		out := make([]StepResult, len(hs))
+		for i, h := range hs {
+			out[i] = run(h)
+		}
+		return out
+	}
+}
+
+// BFS explores breadth-first by replay with state deduplication.  Every level
+// is expanded in two rounds: the enabled events of all frontier states, then
+// the crash variants of those events (one per effect operation observed).
+func BFS(name string, runB BatchRunner, b Bounds) *Report {
 	start := time.Now()
 	rep := &Report{Scenario: name, Outcomes: map[string]int{}, Exhaustive: true, Bounds: b}
 	seen := map[string]bool{}
@@ -139,7 +176,7 @@ func BFS(name string, run Runner, b Bounds) *Report {
 			rep.Violations = append(rep.Violations, v)
 		}
 	}
-	r0 := run(nil)
+	r0 := runB([][]Event{nil})[0]
 	rep.Executions++
 	if r0.Internal != "" {
 		rep.Internal = append(rep.Internal, r0.Internal)
@@ -147,11 +184,11 @@ func BFS(name string, run Runner, b Bounds) *Report {
 		rep.WallS = time.Since(start).Seconds()
 		return rep
 	}
-	seen[hashKey(r0.Key)] = true
+	seen[r0.Key] = true
 	rep.States = 1
 	rep.Outcomes[r0.Outcome]++
 	addV(r0.Violations, nil)
-	frontier := []item{{hist: nil, enabled: r0.Enabled, key: r0.Key}}
+	frontier := []item{{hist: nil, enabled: r0.Enabled, key: r0.Key, keyText: r0.KeyText}}
 	rep.PerDepth = append(rep.PerDepth, 1)
 	capHit := func() bool {
 		if b.MaxStates > 0 && rep.States >= b.MaxStates {
@@ -164,67 +201,101 @@ func BFS(name string, run Runner, b Bounds) *Report {
 		}
 		return false
 	}
+	type job struct {
+		parent *item
+		e      Event
+		h      []Event
+	}
+	const chunk = 512
 	for depth := 0; depth < b.MaxDepth && len(frontier) > 0; depth++ {
 		var next []item
-		for _, it := range frontier {
-			if capHit() {
-				break
+		process := func(jobs []job, crashRound bool) []job {
+			var crashJobs []job
+			for lo := 0; lo < len(jobs); lo += chunk {
+				if capHit() {
+					return nil
+				}
+				hi := lo + chunk
+				if hi > len(jobs) {
+					hi = len(jobs)
+				}
+				hs := make([][]Event, hi-lo)
+				for i := lo; i < hi; i++ {
+					hs[i-lo] = jobs[i].h
+				}
+				results := runB(hs)
+				for i, res := range results {
+					j := jobs[lo+i]
+					rep.Executions++
+					rep.Transitions++
+					if j.e.Crash > 0 {
+						rep.CrashRuns++
+					}
+					if res.Internal != "" {
+						rep.Internal = append(rep.Internal, fmt.Sprintf("%v: %s", HistoryString(j.h), res.Internal))
+						rep.Exhaustive = false
+						continue
+					}
+					if res.PrefixKey != "" && res.PrefixKey != j.parent.key {
+						// The implementation itself is not deterministic at this
+						// point (e.g. a Go select with two ready cases).  The
+						// execution is still a real one and is kept, but the run
+						// can no longer claim to have enumerated every successor.
+						rep.Nondeterministic++
+						if len(rep.NondetSamples) < 3 {
+							msg := ""
+							if j.parent.keyText != "" && res.PrefixDiff != "" {
+								msg = diffKeys(j.parent.keyText, res.PrefixDiff)
+							}
+							rep.NondetSamples = append(rep.NondetSamples, fmt.Sprintf("%v %s", HistoryString(j.parent.hist), msg))
+						}
+						rep.Exhaustive = false
+					}
+					rep.Outcomes[res.Outcome]++
+					addV(res.Violations, j.h)
+					if !crashRound && !b.NoCrash && j.parent.dev+j.e.Dev+1 <= b.MaxDev {
+						for k := 0; k < res.Effects; k++ {
+							ce := j.e
+							ce.Crash = k + 1
+							ce.Dev = j.e.Dev + 1
+							crashJobs = append(crashJobs, job{parent: j.parent, e: ce, h: append(append([]Event{}, j.parent.hist...), ce)})
+						}
+					}
+					if seen[res.Key] {
+						continue
+					}
+					seen[res.Key] = true
+					rep.States++
+					if len(rep.Samples) < 6 || (rep.States%997 == 0 && len(rep.Samples) < 12) {
+						rep.Samples = append(rep.Samples, HistoryString(j.h))
+					}
+					if len(j.h) > rep.MaxDepth {
+						rep.MaxDepth = len(j.h)
+					}
+					next = append(next, item{hist: j.h, enabled: res.Enabled, key: res.Key, keyText: res.KeyText, dev: j.parent.dev + j.e.Dev})
+				}
 			}
-			var work []Event
+			return crashJobs
+		}
+		var jobs []job
+		for fi := range frontier {
+			it := &frontier[fi]
 			for _, e := range it.enabled {
 				if it.dev+e.Dev <= b.MaxDev {
-					work = append(work, e)
+					jobs = append(jobs, job{parent: it, e: e, h: append(append([]Event{}, it.hist...), e)})
 				}
 			}
-			for wi := 0; wi < len(work); wi++ {
-				e := work[wi]
-				h := append(append([]Event{}, it.hist...), e)
-				res := run(h)
-				rep.Executions++
-				rep.Transitions++
-				if e.Crash > 0 {
-					rep.CrashRuns++
-				}
-				if res.Internal != "" {
-					rep.Internal = append(rep.Internal, fmt.Sprintf("%v: %s", HistoryString(h), res.Internal))
-					rep.Exhaustive = false
-					continue
-				}
-				if res.PrefixKey != "" && res.PrefixKey != it.key {
-					rep.Internal = append(rep.Internal, fmt.Sprintf("replay divergence at %v:\n  was %s\n  now %s", HistoryString(it.hist), it.key, res.PrefixKey))
-					rep.Exhaustive = false
-					continue
-				}
-				rep.Outcomes[res.Outcome]++
-				addV(res.Violations, h)
-				// crash variants of this event
-				if !b.NoCrash && e.Crash == 0 && it.dev+e.Dev+1 <= b.MaxDev {
-					for k := 0; k < res.Effects; k++ {
-						ce := e
-						ce.Crash = k + 1
-						ce.Dev = e.Dev + 1
-						work = append(work, ce)
-					}
-				}
-				hk := hashKey(res.Key)
-				if seen[hk] {
-					continue
-				}
-				seen[hk] = true
-				rep.States++
-				if len(rep.Samples) < 6 || (rep.States%997 == 0 && len(rep.Samples) < 12) {
-					rep.Samples = append(rep.Samples, HistoryString(h))
-				}
-				if len(h) > rep.MaxDepth {
-					rep.MaxDepth = len(h)
-				}
-				next = append(next, item{hist: h, enabled: res.Enabled, key: res.Key, dev: it.dev + e.Dev})
-			}
+		}
+		crashJobs := process(jobs, false)
+		if rep.CapHit == "" {
+			process(crashJobs, true)
 		}
 		if rep.CapHit != "" {
 			rep.Exhaustive = false
+			rep.CompletedDepth = depth
 			break
 		}
+		rep.CompletedDepth = depth + 1
 		frontier = next
 		rep.PerDepth = append(rep.PerDepth, len(next))
 	}
@@ -345,4 +416,25 @@ var CommonAssumptions = []string{
 	"the simulated chain / Lightning node / wallet / messenger (verif/world, verif/node) are faithful at the level the property speaks about",
 	"btcd, go-elements and secp256k1 are correct; the peer cannot break SHA-256 or ECDSA",
 	"behaviour of the checked packages does not depend on the Go toolchain difference 1.23.5 -> 1.26.8 (needed for testing/synctest)",
+}
+
+func DiffKeys(a, b string) string { return diffKeys(a, b) }
+
+func diffKeys(a, b string) string {
+	i := 0
+	for i < len(a) && i < len(b) && a[i] == b[i] {
+		i++
+	}
+	lo := i - 80
+	if lo < 0 {
+		lo = 0
+	}
+	hiA, hiB := i+120, i+120
+	if hiA > len(a) {
+		hiA = len(a)
+	}
+	if hiB > len(b) {
+		hiB = len(b)
+	}
+	return fmt.Sprintf("first difference at byte %d:\n   was ...%s\n   now ...%s", i, a[lo:hiA], b[lo:hiB])
 }
